@@ -101,7 +101,12 @@ func evalGoatLocals(env map[string]int64, src string) (bool, int64, string, stri
 		if c05LocalsN%2 == 0 {
 			pre = "\tz := 1\n\tz <<= 1\n\tz >>= 1\n\tz += 1\n\tz -= 1\n\tz *= 1\n\tz /= 1\n\tz %= 7\n\tz &= 7\n\tz |= 0\n\tz ^= 0\n\tz++\n\tz--\n\tw := -z<<1 == -2 && ^z>>1 != 5 || !(z <= 0) && z >= 1\n\t_ = w\n"
 		}
-		_, err = vm.Eval(fstest.MapFS{}, "e.go", "func F(a, b, c, d, e int, p, q, r, s, t bool) any {\n"+pre+"\tx := "+src+"\n\treturn x\n}\n")
+		// every third time the expression is the operand of the return statement itself
+		body := "\tx := " + src + "\n\treturn x\n"
+		if c05LocalsN%3 == 0 {
+			body = "\treturn " + src + "\n"
+		}
+		_, err = vm.Eval(fstest.MapFS{}, "e.go", "func F(a, b, c, d, e int, p, q, r, s, t bool) any {\n"+pre+body+"}\n")
 		if err != nil {
 			return
 		}
